@@ -965,7 +965,8 @@ def finish(ctx, pid, tier, seed, t0, spec, au, cov, violations, known_hits):
                'hand-written Gallina model tied to /repo by differential correspondence (kernel and history streams, this run)',
                'extraction: ExtrOcamlBasic only (its Extract Inductive bool/option/unit/list/prod/sumbool/sumor and Extract Inlined Constant andb => (&&), orb => (||)); no Extract directive of our own; N/positive/nat stay extracted inductives',
                'OCaml driver (parsing/printing, Zarith only for decimal conversion), Rust harness mini-chain, rustc/cargo, ocamlfind',
-               'environment model (bank/staking/distribution/CosmWasm dispatch) is modelled, not verified (DESIGN.md section 7)']
+               'environment model (bank/staking/distribution/CosmWasm dispatch, twelve validators, four denoms, sub-second block times, no reply handlers) is modelled, not verified (DESIGN.md section 7, 11.5, 11.11)',
+               'message surface: schemars schemas of the entry points message types compared with lib/surface.txt (DESIGN.md 11.11)']
     ev = {
         'property_id': pid, 'tier': tier, 'seed': seed, 'level': 'proof',
         'coverage': {
